@@ -421,7 +421,24 @@ def client_case(rng, stats, length, pid):
                 if depth >= 5:
                     feed(ps.msg(20, sid, cmd_body("onStatus", 0.0, ("z",), [obj(level=s("status"), code=s("NetStream.Play.Start" if kind == "play" else "NetStream.Publish.Start"), description=s("d"))])))
                     sim.state = "playing" if kind == "play" else "publishing"
-        if depth >= 2 and rng.chance(1, 4):
+        if depth == 2 and rng.chance(1, 3):
+            # two stream requests outstanding at once, answered with DIFFERENT stream ids: the active stream is the one
+            # returned last (the command for it went out on it); media on the other id is not this session's
+            kinds = [rng.choice(["play", "pub"]) for _ in range(2)]
+            tids = []
+            for kd in kinds:
+                if kd == "play": ops.append(f"cli.play {rand_now(rng, st)} {hexb(b'key')}")
+                else: ops.append(f"cli.publish {rand_now(rng, st)} {hexb(b'key')} live")
+                tids.append(sim.next_tid); sim.next_tid += 1
+            ids = [rng.choice([1, 2]), rng.choice([3, 5])]
+            for t, sidv in zip(tids, ids):
+                feed(ps.msg(20, 0, cmd_body("_result", float(t), ("z",), [num(float(sidv))])))
+            for sidv in (ids[1], ids[0], ids[1]):
+                feed(ps.msg(rng.choice([8, 9]), sidv, rng.bytes(5)))
+            ops.append(f"cli.stop {rand_now(rng, st)} {'play' if kinds[1] == 'play' else 'pub'}")
+            bump(stats, "cli_two_stream_requests_two_ids")
+            length = 0
+        elif depth >= 2 and rng.chance(1, 4):
             # a stray status that answers no request of this session (refused as a state error): the session must be
             # exactly where it was - the calls its phase allows are still accepted, the others still refused
             code = rng.choice(["NetStream.Play.Start", "NetStream.Publish.Start"])
